@@ -4,6 +4,7 @@ package m3
 
 import (
 	"reflect"
+	"unsafe"
 
 	tally "github.com/uber-go/tally/v4"
 	"github.com/uber-go/tally/v4/thirdparty/github.com/apache/thrift/lib/go/thrift"
@@ -86,4 +87,31 @@ func VerifInternalChargedSizes(r Reporter) []int32 {
 		VerifChargedSize(rr.numTagCacheCounter),
 	}
 	return append(out, VerifBucketChargedSizes(rr.batchSizeHistogram)...)
+}
+
+// VerifDrainTagSlicePool takes tag slices out of the reporter's tag slice pool (and drops them) until `keep` are
+// left, and returns how many were left (-1: the pool was not found in this tree). The pool hands slices out in the
+// order they were put in: what is left afterwards is what was given back last. Found by reflection, so that a
+// reshaped reporter still builds.
+func VerifDrainTagSlicePool(r Reporter, keep int) int {
+	rv := reflect.ValueOf(r)
+	if rv.Kind() == reflect.Ptr {
+		rv = rv.Elem()
+	}
+	if rv.Kind() != reflect.Struct {
+		return -1
+	}
+	rp := rv.FieldByName("resourcePool")
+	if !rp.IsValid() || rp.Kind() != reflect.Ptr || rp.IsNil() {
+		return -1
+	}
+	pf := rp.Elem().FieldByName("metricTagSlicePool")
+	if !pf.IsValid() || pf.Kind() != reflect.Ptr || pf.IsNil() {
+		return -1
+	}
+	pool, ok := reflect.NewAt(pf.Type(), unsafe.Pointer(pf.UnsafeAddr())).Elem().Interface().(*tally.ObjectPool)
+	if !ok || pool == nil {
+		return -1
+	}
+	return tally.VerifPoolDrainTo(pool, keep)
 }
